@@ -82,7 +82,7 @@ HARNESSES = [
         strength="B(caller buffers <= 8 bytes; complete in every scalar parameter, stream field and callee result)",
         note="inflate/deflate replaced by recording contract models (own contracts: K-inflate/K-deflate); std::panic::catch_unwind replaced by Ok(f()) (Kani ICE on the intrinsic; exact under panic=abort)")
       for (n, sv, f) in (
-        ("k_capi_mz_inflate", ["C17", "C06", "C11", "C16"], ["mz_inflate", "mz_inflateInit2", "mz_inflateEnd", "mz_inflate_oxide", "mz_inflate_init2_oxide", "StreamOxide::try_new", "StreamOxide::into_mz_stream", "MZFlush::new", "as_c_return_code"]),
+        ("k_capi_mz_inflate", ["C17", "C06", "C11", "C13", "C14", "C16"], ["mz_inflate", "mz_inflateInit2", "mz_inflateEnd", "mz_inflate_oxide", "mz_inflate_init2_oxide", "StreamOxide::try_new", "StreamOxide::into_mz_stream", "MZFlush::new", "as_c_return_code"]),
         ("k_capi_custom_allocators_rejected", ["C17"], ["StreamOxide::try_new"]),
         ("k_capi_tinfl_mem_to_heap", ["C17"], ["tinfl_decompress_mem_to_heap", "miniz_def_alloc_func", "miniz_def_realloc_func", "miniz_def_free_func"]),
         ("k_capi_tinfl_decompress", ["C17", "C06"], ["tinfl_decompress"]),
@@ -135,7 +135,7 @@ HARNESSES = [
       strength="B(in<=3,out<=3 bytes, loop unwinding assertion on; complete in wrapper state, flush, engine results)",
       note="compress replaced by contract model M-compress (proved by K-dispatch: counts<=offered, Done only after Finish, status latched; assumed: progress - Okay with output space and work left moved at least one byte)"),
     # ---- K-boundary (feature block-boundary) ----
-    H("k_block_boundary_record", "K-boundary", ["C19"], fns=["DecompressorOxide::block_boundary_state", "DecompressorOxide::from_block_boundary_state"], args=["--features", "block-boundary"], cost=30),
+    H("k_block_boundary_record", "K-boundary", ["C19", "C04"], fns=["DecompressorOxide::block_boundary_state", "DecompressorOxide::from_block_boundary_state"], args=["--features", "block-boundary"], cost=30),
     H("k_serde_visits_every_decoder_field", "K-serde", ["C19"], fns=["<DecompressorOxide as serde::Serialize>::serialize (derived)"], args=["--features", "serde"], cost=30,
       strength="F", note="a recording Serializer stands in for the data format; field values are not descended into; the Deserialize side is not exercised"),
     H("k_block_boundary_exit", "K-boundary", ["C19"], fns=["decompress_with_limit (BlockDone arm with stop flag, epilogue)"], args=["--features", "block-boundary"], cost=40,
